@@ -134,7 +134,7 @@ Proof.
     + destruct (IH _ _ _ _ _ _ I H) as (fs & E & V); [lia|]. exists (0%Q :: fs). split.
       * rewrite E. cbn. rewrite <- app_assoc. reflexivity.
       * cbn [aff_at env_of dotn]. apply Qeq_bool_iff in Ec. rewrite aff_at_base, V, Ec. ring.
-    + destruct (IH _ _ _ _ _ _ I H) as (fs & E & V); [lia|]. exists ((inject_Z step * nth_coef coefs i)%Q :: fs). split.
+    + destruct (IH _ _ _ _ _ _ I H) as (fs & E & V); [lia|]. exists ((0 + inject_Z step * nth_coef coefs i)%Q :: fs). split.
       * rewrite E. cbn. rewrite <- app_assoc. reflexivity.
       * cbn [aff_at env_of dotn]. rewrite aff_at_base, V, inject_Z_plus, inject_Z_mult. ring.
 Qed.
